@@ -151,6 +151,15 @@ def run_replay(bindir, binname, path, outdir, timeout=600):
             sig = line.split(" sig=", 1)[1]
             sigs.append((rule, sig))
     ok = p.returncode in (0, 1) and "REPLAY " in p.stdout
+    if p.returncode < 0:
+        # the replayed case killed the process: that reproduces a process-abort witness (and nothing else)
+        try:
+            with open(path) as f:
+                w = json.load(f)
+        except (OSError, ValueError):
+            w = {}
+        if w.get("rule") == "process-abort":
+            return [("process-abort", w.get("sig", "?"))], p.stdout + "\nREPLAY property=%s reproduced=1 rule=process-abort sig=%s\n" % (w.get("property"), w.get("sig")), True
     return sigs, p.stdout, ok
 
 
@@ -180,6 +189,7 @@ def run_shards(bindir, binname, tier, seed, nshards, outdir, scale, timeout, ext
     deadline = time.time() + timeout
     problems = []
     summaries = []
+    crashes = []
     for i, p, lf in procs:
         left = max(1, deadline - time.time())
         try:
@@ -192,6 +202,12 @@ def run_shards(bindir, binname, tier, seed, nshards, outdir, scale, timeout, ext
             continue
         lf.close()
         spath = os.path.join(outdir, "shard-%d.summary.json" % i)
+        if rc < 0 and not os.path.exists(spath) and not (extra_env and ("ASAN_OPTIONS" in extra_env or "TSAN_OPTIONS" in extra_env)):
+            # died by a signal (stack overflow, abort, ...): find the case with a breadcrumb re-run
+            crash = locate_crash(bindir, binname, tier, seed, i, nshards, outdir, scale, timeout, extra_args, rc)
+            if crash:
+                crashes.append(crash)
+                continue
         if rc != 0 or not os.path.exists(spath):
             tail = ""
             try:
@@ -203,7 +219,57 @@ def run_shards(bindir, binname, tier, seed, nshards, outdir, scale, timeout, ext
             continue
         with open(spath) as f:
             summaries.append(json.load(f))
+    if crashes:
+        # hand the confirmed crashes to merge() as a synthetic shard summary
+        summaries.append({"evaluations": 0, "counters": {}, "maxima": {}, "musts": {}, "samples": [], "inconclusive": [], "notes": {},
+                          "violations": [{"rule": c["rule"], "sig": c["sig"], "file": c["file"]} for c in crashes],
+                          "violations_per_sig": {"%s|%s" % (c["rule"], c["sig"]): 1 for c in crashes},
+                          "distinct_file": os.path.join(outdir, "none.distinct"), "wall_s": 0})
     return summaries, problems
+
+
+def signal_name(rc):
+    import signal
+    try:
+        return signal.Signals(-rc).name
+    except (ValueError, AttributeError):
+        return "signal%d" % -rc
+
+
+def locate_crash(bindir, binname, tier, seed, i, nshards, outdir, scale, timeout, extra_args, rc):
+    """A shard died by a signal. Re-run it with --breadcrumb=1 (deterministic: same cases), take the case it
+    was in when it died, replay that case alone; if the replay dies by a signal too, return a violation
+    record {rule, sig, file}. Otherwise None (the caller reports the shard as inconclusive)."""
+    bdir = os.path.join(outdir, "crash-%d" % i)
+    os.makedirs(bdir, exist_ok=True)
+    cmd = [os.path.join(bindir, binname), "--tier", tier, "--seed", str(seed), "--shard", str(i), "--nshards", str(nshards),
+           "--out", bdir, "--scale", str(scale), "--breadcrumb=1"] + list(extra_args)
+    try:
+        with open(os.path.join(bdir, "rerun.log"), "w") as lf:
+            p = subprocess.run(cmd, stdout=lf, stderr=subprocess.STDOUT, cwd=bdir, timeout=timeout)
+    except subprocess.TimeoutExpired:
+        return None
+    crumb = os.path.join(bdir, "shard-%d.current.json" % i)
+    if p.returncode >= 0 or not os.path.exists(crumb):
+        return None
+    rdir = os.path.join(bdir, "replay")
+    os.makedirs(rdir, exist_ok=True)
+    try:
+        with open(os.path.join(rdir, "replay.log"), "w") as lf:
+            r = subprocess.run([os.path.join(bindir, binname), "--replay", crumb, "--out", rdir], stdout=lf, stderr=subprocess.STDOUT, cwd=rdir, timeout=600)
+    except subprocess.TimeoutExpired:
+        return None
+    if r.returncode >= 0:
+        return None
+    log_txt = open(os.path.join(rdir, "replay.log"), errors="replace").read()
+    how = "stack-overflow" if "overflowed its stack" in log_txt else ("alloc-failure" if "memory allocation" in log_txt else "abort")
+    with open(crumb) as f:
+        w = json.load(f)
+    w["sig"] = "%s|%s" % (signal_name(r.returncode), how)
+    w["observed"] = {"signal": signal_name(r.returncode), "how": how, "log_tail": log_txt[-600:]}
+    with open(crumb, "w") as f:
+        json.dump(w, f, indent=1)
+    return {"rule": "process-abort", "sig": w["sig"], "file": crumb}
 
 
 def merge(summaries):
